@@ -927,6 +927,7 @@ end UrcuVerif.BpArena
 
 /-! ### registration versus signals -/
 namespace UrcuVerif.BpArena.Sig
+set_option linter.unusedSimpArgs false
 
 def Pc.holdsReg : Pc → Bool
   | .add | .unlock | .xremove | .xunlock => true
@@ -956,9 +957,11 @@ inductive Reach (c : Cfg) : State → Prop
   | init : Reach c init
   | step {s s' l} : Reach c s → step c s l = some s' → Reach c s'
 
-structure Inv (s : State) : Prop where
-  blk     : s.blocked = s.top.inWindow
-  bel_win : ∀ p ∈ s.below, p.inWindow = false
+/-- the invariant, parametrised by the set `w` of pcs inside the blocked window (it differs between
+the code as it is and the code before 760a93b) -/
+structure Inv (w : Pc → Bool) (s : State) : Prop where
+  blk     : s.blocked = w s.top
+  bel_win : ∀ p ∈ s.below, w p = false
   regH    : s.regHeld = s.top.holdsReg
   initH   : s.initHeld = (s.top.holdsInit || s.below.any Pc.holdsInit)
   pre_add : s.top.preAdd = true → s.tls = false
@@ -971,56 +974,10 @@ structure Inv (s : State) : Prop where
   belX    : xLast s.below = true
   top_init : (s.top = .initInc ∨ s.top = .initUnlock) → s.below.any Pc.holdsInit = false
 
-theorem inv_init : Inv init := by
-  constructor <;> simp [init, Pc.inWindow, Pc.holdsReg, Pc.holdsInit, Pc.preAdd, Pc.preRemove, Pc.postAdd, Pc.isX, xLast]
-
 macro "sig_tac" : tactic => `(tactic|
   (constructor <;> simp only [List.mem_cons, List.any_cons, xLast, forall_eq_or_imp] <;>
-   grind [Pc.inWindow, Pc.holdsReg, Pc.holdsInit, Pc.preAdd, Pc.preRemove, Pc.postAdd, Pc.isX, xLast]))
-
-theorem inv_step_signal {s s' : State} (h : Inv s) (st : step real s .signal = some s') : Inv s' := by
-  obtain ⟨h1, h2, h3, h4, h5, h6, h7, h8, h9, h10, h11, h12, h13⟩ := h
-  rcases s with ⟨top, below, blocked, tls, regs, regHeld, initHeld, refs⟩
-  simp only [step] at st
-  split at st
-  · simp at st
-  · obtain rfl := Option.some.inj st
-    cases top <;> sig_tac
-
-theorem inv_step_call {s s' : State} {l : Lbl} (hl : l = .readLock ∨ l = .exit) (h : Inv s) (st : step real s l = some s') : Inv s' := by
-  obtain ⟨h1, h2, h3, h4, h5, h6, h7, h8, h9, h10, h11, h12, h13⟩ := h
-  rcases s with ⟨top, below, blocked, tls, regs, regHeld, initHeld, refs⟩
-  rcases hl with rfl | rfl <;> simp only [step] at st <;> split at st <;> (try (simp at st; done)) <;>
-    (obtain rfl := Option.some.inj st) <;> sig_tac
-
-theorem inv_step_run_a {s s' : State} (hx : s.top.isX = false) (h : Inv s) (st : step real s .run = some s') : Inv s' := by
-  obtain ⟨h1, h2, h3, h4, h5, h6, h7, h8, h9, h10, h11, h12, h13⟩ := h
-  rcases s with ⟨top, below, blocked, tls, regs, regHeld, initHeld, refs⟩
-  cases top <;> (try (simp [Pc.isX] at hx; done)) <;>
-    simp only [step, real, Bool.false_eq_true, ↓reduceIte, false_and] at st <;> (try split at st) <;>
-    (try (simp at st; done)) <;> (obtain rfl := Option.some.inj st) <;> sig_tac
-
-theorem inv_step_run_b {s s' : State} (hx : s.top.isX = true) (h : Inv s) (st : step real s .run = some s') : Inv s' := by
-  obtain ⟨h1, h2, h3, h4, h5, h6, h7, h8, h9, h10, h11, h12, h13⟩ := h
-  rcases s with ⟨top, below, blocked, tls, regs, regHeld, initHeld, refs⟩
-  cases top <;> (try (simp [Pc.isX] at hx; done)) <;>
-    simp only [step, real, Bool.false_eq_true, ↓reduceIte, false_and] at st <;> (try split at st) <;>
-    (try (simp at st; done)) <;> (obtain rfl := Option.some.inj st) <;> sig_tac
-
-theorem inv_step {s s' : State} {l : Lbl} (h : Inv s) (st : step real s l = some s') : Inv s' := by
-  cases l with
-  | signal => exact inv_step_signal h st
-  | readLock => exact inv_step_call (Or.inl rfl) h st
-  | exit => exact inv_step_call (Or.inr rfl) h st
-  | run =>
-    cases hx : s.top.isX with
-    | false => exact inv_step_run_a hx h st
-    | true => exact inv_step_run_b hx h st
-
-theorem inv_reach {s : State} (h : Reach real s) : Inv s := by
-  induction h with
-  | init => exact inv_init
-  | step _ st ih => exact inv_step ih st
+   grind [Pc.inWindow, Pc.inWindowUnfixed, Pc.holdsReg, Pc.holdsInit, Pc.preAdd, Pc.preRemove, Pc.postAdd,
+          Pc.isX, xLast]))
 
 theorem reach_of_run {c : Cfg} {s s' : State} {ls : List Lbl} (h : Reach c s)
     (hr : runLbls c s ls = some s') : Reach c s' := by
@@ -1037,4 +994,118 @@ theorem reach_of_run_get (c : Cfg) (ls : List Lbl) (h : (runLbls c init ls).isSo
   have hr : runLbls c init ls = some ((runLbls c init ls).get h) := by simp
   exact reach_of_run Reach.init hr
 
+/-! #### the code as it is (`real`) -/
+
+theorem inv_init : Inv Pc.inWindow init := by
+  constructor <;> simp [init, Pc.inWindow, Pc.holdsReg, Pc.holdsInit, Pc.preAdd, Pc.preRemove, Pc.postAdd, Pc.isX, xLast]
+
+theorem inv_step_signal {s s' : State} (h : Inv Pc.inWindow s) (st : step real s .signal = some s') :
+    Inv Pc.inWindow s' := by
+  obtain ⟨h1, h2, h3, h4, h5, h6, h7, h8, h9, h10, h11, h12, h13⟩ := h
+  rcases s with ⟨top, below, blocked, tls, regs, regHeld, initHeld, refs⟩
+  simp only [step] at st
+  split at st
+  · simp at st
+  · obtain rfl := Option.some.inj st
+    cases top <;> sig_tac
+
+theorem inv_step_call {s s' : State} {l : Lbl} (hl : l = .readLock ∨ l = .exit) (h : Inv Pc.inWindow s)
+    (st : step real s l = some s') : Inv Pc.inWindow s' := by
+  obtain ⟨h1, h2, h3, h4, h5, h6, h7, h8, h9, h10, h11, h12, h13⟩ := h
+  rcases s with ⟨top, below, blocked, tls, regs, regHeld, initHeld, refs⟩
+  rcases hl with rfl | rfl <;> simp only [step] at st <;> split at st <;> (try (simp at st; done)) <;>
+    (obtain rfl := Option.some.inj st) <;> sig_tac
+
+theorem inv_step_run_a {s s' : State} (hx : s.top.isX = false) (h : Inv Pc.inWindow s)
+    (st : step real s .run = some s') : Inv Pc.inWindow s' := by
+  obtain ⟨h1, h2, h3, h4, h5, h6, h7, h8, h9, h10, h11, h12, h13⟩ := h
+  rcases s with ⟨top, below, blocked, tls, regs, regHeld, initHeld, refs⟩
+  cases top <;> (try (simp [Pc.isX] at hx; done)) <;>
+    simp only [step, real, Bool.false_eq_true, ↓reduceIte, false_and, false_or, true_and, not_false_eq_true] at st <;>
+    (try split at st) <;>
+    (try (simp at st; done)) <;> (obtain rfl := Option.some.inj st) <;> sig_tac
+
+theorem inv_step_run_b {s s' : State} (hx : s.top.isX = true) (h : Inv Pc.inWindow s)
+    (st : step real s .run = some s') : Inv Pc.inWindow s' := by
+  obtain ⟨h1, h2, h3, h4, h5, h6, h7, h8, h9, h10, h11, h12, h13⟩ := h
+  rcases s with ⟨top, below, blocked, tls, regs, regHeld, initHeld, refs⟩
+  cases top <;> (try (simp [Pc.isX] at hx; done)) <;>
+    simp only [step, real, Bool.false_eq_true, ↓reduceIte, false_and, false_or, true_and, not_false_eq_true] at st <;>
+    (try split at st) <;>
+    (try (simp at st; done)) <;> (obtain rfl := Option.some.inj st) <;> sig_tac
+
+theorem inv_step {s s' : State} {l : Lbl} (h : Inv Pc.inWindow s) (st : step real s l = some s') :
+    Inv Pc.inWindow s' := by
+  cases l with
+  | signal => exact inv_step_signal h st
+  | readLock => exact inv_step_call (Or.inl rfl) h st
+  | exit => exact inv_step_call (Or.inr rfl) h st
+  | run =>
+    cases hx : s.top.isX with
+    | false => exact inv_step_run_a hx h st
+    | true => exact inv_step_run_b hx h st
+
+theorem inv_reach {s : State} (h : Reach real s) : Inv Pc.inWindow s := by
+  induction h with
+  | init => exact inv_init
+  | step _ st ih => exact inv_step ih st
+
+/-! #### the code before 760a93b (`unfixed`) -/
+namespace Unfixed
+
+theorem inv_init : Inv Pc.inWindowUnfixed init := by
+  constructor <;> simp [init, Pc.inWindowUnfixed, Pc.holdsReg, Pc.holdsInit, Pc.preAdd, Pc.preRemove, Pc.postAdd, Pc.isX, xLast]
+
+theorem inv_step_signal {s s' : State} (h : Inv Pc.inWindowUnfixed s) (st : step unfixed s .signal = some s') :
+    Inv Pc.inWindowUnfixed s' := by
+  obtain ⟨h1, h2, h3, h4, h5, h6, h7, h8, h9, h10, h11, h12, h13⟩ := h
+  rcases s with ⟨top, below, blocked, tls, regs, regHeld, initHeld, refs⟩
+  simp only [step] at st
+  split at st
+  · simp at st
+  · obtain rfl := Option.some.inj st
+    cases top <;> sig_tac
+
+theorem inv_step_call {s s' : State} {l : Lbl} (hl : l = .readLock ∨ l = .exit) (h : Inv Pc.inWindowUnfixed s)
+    (st : step unfixed s l = some s') : Inv Pc.inWindowUnfixed s' := by
+  obtain ⟨h1, h2, h3, h4, h5, h6, h7, h8, h9, h10, h11, h12, h13⟩ := h
+  rcases s with ⟨top, below, blocked, tls, regs, regHeld, initHeld, refs⟩
+  rcases hl with rfl | rfl <;> simp only [step] at st <;> split at st <;> (try (simp at st; done)) <;>
+    (obtain rfl := Option.some.inj st) <;> sig_tac
+
+theorem inv_step_run_a {s s' : State} (hx : s.top.isX = false) (h : Inv Pc.inWindowUnfixed s)
+    (st : step unfixed s .run = some s') : Inv Pc.inWindowUnfixed s' := by
+  obtain ⟨h1, h2, h3, h4, h5, h6, h7, h8, h9, h10, h11, h12, h13⟩ := h
+  rcases s with ⟨top, below, blocked, tls, regs, regHeld, initHeld, refs⟩
+  cases top <;> (try (simp [Pc.isX] at hx; done)) <;>
+    simp only [step, unfixed, Bool.false_eq_true, ↓reduceIte, false_and, false_or, or_false, and_false, true_and, not_false_eq_true] at st <;>
+    (try split at st) <;>
+    (try (simp at st; done)) <;> (obtain rfl := Option.some.inj st) <;> sig_tac
+
+theorem inv_step_run_b {s s' : State} (hx : s.top.isX = true) (h : Inv Pc.inWindowUnfixed s)
+    (st : step unfixed s .run = some s') : Inv Pc.inWindowUnfixed s' := by
+  obtain ⟨h1, h2, h3, h4, h5, h6, h7, h8, h9, h10, h11, h12, h13⟩ := h
+  rcases s with ⟨top, below, blocked, tls, regs, regHeld, initHeld, refs⟩
+  cases top <;> (try (simp [Pc.isX] at hx; done)) <;>
+    simp only [step, unfixed, Bool.false_eq_true, ↓reduceIte, false_and, false_or, or_false, and_false, true_and, not_false_eq_true] at st <;>
+    (try split at st) <;>
+    (try (simp at st; done)) <;> (obtain rfl := Option.some.inj st) <;> sig_tac
+
+theorem inv_step {s s' : State} {l : Lbl} (h : Inv Pc.inWindowUnfixed s) (st : step unfixed s l = some s') :
+    Inv Pc.inWindowUnfixed s' := by
+  cases l with
+  | signal => exact inv_step_signal h st
+  | readLock => exact inv_step_call (Or.inl rfl) h st
+  | exit => exact inv_step_call (Or.inr rfl) h st
+  | run =>
+    cases hx : s.top.isX with
+    | false => exact inv_step_run_a hx h st
+    | true => exact inv_step_run_b hx h st
+
+theorem inv_reach {s : State} (h : Reach unfixed s) : Inv Pc.inWindowUnfixed s := by
+  induction h with
+  | init => exact inv_init
+  | step _ st ih => exact inv_step ih st
+
+end Unfixed
 end UrcuVerif.BpArena.Sig
